@@ -17,7 +17,7 @@ nesting depth:
 
 * `getBlocks_laminar` - real brace blocks are non-empty, sorted and properly bracketed (three
   of the layout clauses are therefore consequences, not assumptions);
-* A1 `scopes_of_layout_partial` - every function gets exactly its own body block;
+* A1 `scopes_of_layout` - every function gets exactly its own body block;
 * A2 `fold_of_layout`, `flat_of_layout` - the nesting structure is the one of the specification;
 * A3 `count_of_layout`, `count_of_layout_flat` - the length is the number of distinct own lines;
 * A4 `scan_of_layout_partial`, `scan_of_layout_flat_partial`, `scan_of_fnLayout_partial` - the
@@ -25,15 +25,25 @@ nesting depth:
 * A5 `scan_example_cpp`, `scan_example_c`, `scan_example_js` - end-to-end examples evaluated
   stage by stage.
 
-**Deviation found.**  A1 and A4 are `_partial`: they need the layout clause `no_adjacent` (no
-block starts at the token directly after a function's closing brace), which is NOT a property of
-well-formed files.  Without it the statement is false: `TokenRange.overlaps` treats the
+**Naming.**  `_partial` marks the theorems that are CONDITIONAL on intermediate results of the
+analysis: A4 assumes `extractHeaders L code = .ok hs` with `hs` a permutation of the headers of
+`fns` (header discovery) and `getBlocks code = .ok blocks`.  These hypotheses speak about what the
+algorithm computed, not about the input; they are discharged - replaced by decidable conditions on
+a program TREE - in `Props/C01tree.lean` (blocks), `Props/C01full.lean`, `Props/C01arrow.lean`,
+`Props/C01marks.lean` (headers), and by syntactic conditions on the token list in
+`C01full.scan_of_layout_syn` (headers, C / C++ / C#).  A1 - A3 are stage lemmas about functions of
+the pipeline and carry no suffix.
+
+**The restriction `no_adjacent`.**  A1 and A4 need the layout clause `no_adjacent` (no block starts
+at the token directly after a function's closing brace), which is NOT a property of well-formed
+files; Appendix A of the design makes it part of "canonical" ("a body's `}` is not immediately
+followed by `{`").  Without it the statements are false: `TokenRange.overlaps` treats the
 exclusive end of the body as part of it, so a block that directly follows a function body
 (`void f() { ... } { ... }`, a Java instance initialiser after a method) is merged into the
 function (in TypeScript the same merge happens to repair `f(): { a: T } { ... }`, where the
 first block after the header is the return type); `adjacent_block_is_merged` is a concrete
-witness and `scopes_of_layoutCore_false` /
-`scan_of_layoutCore_false` are the negations of the full statements.
+witness and `scopes_of_layoutCore_false` / `scan_of_layoutCore_false` are the negations of the
+statements without the clause.
 -/
 namespace CL.C01
 
@@ -71,7 +81,7 @@ theorem layoutCore_of_getBlocks {code : List Tok} {fns : List Fn} {blocks : List
 
 /-! ## A1: scopes -/
 
-/-- **A1 (partial: needs `no_adjacent`).**  On a canonical layout
+/-- **A1 (needs the clause `no_adjacent` of `Layout`).**  On a canonical layout
 `_build_scopes_from_headers_and_blocks` succeeds and gives every function exactly its own body
 block, in source order: a brace group inside the parameter list is never taken for the body,
 blocks inside the body do not change it, and the blocks consumed by inner functions (which are
@@ -81,7 +91,7 @@ first.
 
 Full statement (FALSE, see `scopes_of_layoutCore_false`): the same with `LayoutCore` instead of
 `Layout`, i.e. without the clause `no_adjacent`. -/
-theorem scopes_of_layout_partial {code : List Tok} {fns : List Fn} {blocks : List Range}
+theorem scopes_of_layout {code : List Tok} {fns : List Fn} {blocks : List Range}
     (L : Layout code fns blocks) {hs : List Header} (hperm : hs.Perm (fns.map (·.hdr))) :
     buildScopes0 code hs blocks = .ok (fns.map (fun f => ⟨f.hdr, f.body⟩)) :=
   buildScopes0_layout L hperm
@@ -173,7 +183,8 @@ theorem expected_spec {code : List Tok} {fns : List Fn} {blocks : List Range}
 
 /-! ## A4: the whole of `scan_file` -/
 
-/-- **A4, languages with nested functions (partial: needs `no_adjacent`).**  Let `code` be the
+/-- **A4, languages with nested functions (`_partial`: conditional on `hh` / `hperm` / `hb`, i.e. on
+what header extraction and `get_blocks` return; needs `no_adjacent`).**  Let `code` be the
 code tokens of a file.  If the header extraction of a brace-block language `L` finds the headers
 of the functions `fns` (in any order), `get_blocks` finds `blocks`, these data form a canonical layout and no
 function is marked with a suppression comment, then `scan_file` succeeds and reports exactly
@@ -197,7 +208,7 @@ theorem scan_of_layout_partial {L : Language} {all code : List Tok} {fns : List 
   rw [if_pos hnest, withChildren_layout hL.nested]
   exact h1
 
-/-- **A4, languages without nested functions (partial: needs `no_adjacent`).**  Under the same
+/-- **A4, languages without nested functions (`_partial`: as above).**  Under the same
 hypotheses `scan_file` reports exactly the top-level functions, each once, in source order; the
 length of a reported function is the number of distinct lines of ALL its tokens (the tokens of
 the functions nested in it included, since those are not reported). -/
